@@ -43,7 +43,14 @@ def scripts_for(tier, seed):
     out = {}
     out["world"] = (G.random_scripts(seed, 60 if q else 600, 120, [1, 2, 3], 81000000, profile="mixed", sweep="full")
                     + G.random_scripts(seed + 1, 40 if q else 400, 100, [1, 2], 81100000, profile="store", sweep="full", far=1)
-                    + G.kind_churn_scripts(seed, 3 if q else 25, 120, 81200000))
+                    + G.kind_churn_scripts(seed, 3 if q else 25, 120, 81200000)
+                    # caught destructor panics (also inside queued lazy actions) must not leave anything behind
+                    # that a later world could see; kinds whose destruction order is a function of the history
+                    # (not at teardown: the order in which a dying world drops its resources is that of shred's
+                    # hash map and not part of the history)
+                    + [dict(s, fault_teardown=0) for s in
+                       G.fault_scripts(seed, 60 if q else 600, 81300000,
+                                       kinds=[k for k in G.KINDS if "hash" not in k and not k.startswith("p")])])
     from . import saveload, joins, cs
     sl = [s for s in saveload.content_scripts(tier, rng, 82000000) + saveload.random_scripts(tier, rng, 82500000, 100 if q else 1500)
           if s["marker"] == "simple"]
